@@ -56,7 +56,10 @@ Lemma create_range_dim_spec a b st :
   0 < st -> a < b ->
   create_range_dim a b (Some st) None = Ok (lattice a st (range_count a b st), st).
 Proof.
-  intros Hst Hab. unfold create_range_dim. rewrite arange_is_lattice.
+  intros Hst Hab. unfold create_range_dim.
+  assert (Est : qeqb st 0 = false).
+  { destruct (qeqb st 0) eqn:E; [|reflexivity]. apply qeqb_spec in E. lra. }
+  rewrite Est. rewrite arange_is_lattice.
   set (q := (b - a) / st).
   assert (Hq : 0 < q). { unfold q. apply Qlt_shift_div_l; lra. }
   assert (Hqst : q * st == b - a). { unfold q. field. lra. }
